@@ -649,13 +649,18 @@ def work_c02(args):
         out["features"].add(feats)
         for act in builder_actions(r["p"]):
             out["actions"][act] = out["actions"].get(act, 0) + 1
-        if len(out["samples"]) < 1:
-            out["samples"].append({"p": r["p"], "salt": salt})
+        cand = {"p": r["p"], "salt": salt}
+        if not out["samples"] or _case_key(cand) < _case_key(out["samples"][0]):
+            out["samples"] = [cand]
         out["parts"] += 1
         bucket = out["viol"] if r["strict"] else out["lenient"]
         for sig, entry, what in c02_signatures(j):
+            cand = {"kind": "enumerated", "p": r["p"], "salt": salt, "what": what, "count": 0, "strict": bool(r["strict"]), "entry_points": []}
             if sig not in bucket:
-                bucket[sig] = {"kind": "enumerated", "p": r["p"], "salt": salt, "what": what, "count": 0, "strict": bool(r["strict"]), "entry_points": []}
+                bucket[sig] = cand
+            elif _case_key(cand) < _case_key(bucket[sig]):
+                cand["count"], cand["entry_points"] = bucket[sig]["count"], bucket[sig]["entry_points"]
+                bucket[sig] = cand
             bucket[sig]["count"] += 1
             if entry not in bucket[sig]["entry_points"]:
                 bucket[sig]["entry_points"].append(entry)
@@ -763,8 +768,9 @@ def work_c17(args):
         for act in builder_actions(p):
             out["actions"][act] = out["actions"].get(act, 0) + 1
         out["cls"][j["cls"]] = out["cls"].get(j["cls"], 0) + 1
-        if len(out["samples"]) < 1:
-            out["samples"].append({"p": p, "salt": salt, "outcome": j["cls"]})
+        cand = {"p": p, "salt": salt, "outcome": j["cls"]}
+        if not out["samples"] or _case_key(cand) < _case_key(out["samples"][0]):
+            out["samples"] = [cand]
         detail = {"kind": "enumerated", "p": p, "salt": salt}
         _collect_c17(out, j, detail)
         if not r["c17"]:
@@ -795,9 +801,17 @@ def work_c17(args):
     return out
 
 
+def _case_key(d: dict) -> str:
+    return json.dumps({k: d.get(k) for k in ("p", "salt", "mutation", "index", "rng_seed", "seed_proto_hex", "mutator")}, sort_keys=True, default=str)
+
+
 def _bump(d, sig, detail):
+    """Count a case under its signature; the recorded case is the smallest one, not the first one seen (the order
+    of TLC's output lines depends on worker scheduling)."""
     if sig not in d:
         d[sig] = dict(detail, count=0)
+    elif _case_key(detail) < _case_key(d[sig]):
+        d[sig] = dict(detail, count=d[sig]["count"])
     d[sig]["count"] += 1
 
 
@@ -811,10 +825,7 @@ def _collect_c17(out, j, detail):
     if j["inspect_events"]:
         _bump(out["viol"], "C17:file-access:inspect:" + j["inspect_events"][0][0], dict(detail, events=j["inspect_events"][:5]))
     if j["cls"] == "ir":
-        key = json.dumps(j["proj"]["o"], sort_keys=True)
-        if key not in out["projs"]:
-            out["projs"][key] = dict(detail, count=0)
-        out["projs"][key]["count"] += 1
+        _bump(out["projs"], json.dumps(j["proj"]["o"], sort_keys=True), detail)
         if isinstance(j["fix"], list):
             out["fix_checked"] += 1
             for s in j["fix"]:
